@@ -256,6 +256,14 @@ func (i *Identity) Mutate(repo repository.RepoClock, f func(orig *Mutator)) erro
 		return err
 	}
 
+	// The new version takes effect after everything this repository has written so far. The
+	// current value of a clock is the time of the last commit written, which was made under the
+	// previous version: without this, the last commit of an author who declares a first key would
+	// fall under that key and be rejected for its missing signature.
+	for name := range v.times {
+		v.times[name]++
+	}
+
 	i.versions = append(i.versions, v)
 	return nil
 }
